@@ -245,8 +245,15 @@ fn lin<'a>(cfg: &TCfg, spec: &'a Spec<Shared, i64>, tier: Tier) -> LinCheck<'a, 
         site: "coalesce_threads",
         label: cfg.label(),
         spec,
-        bounds: tier.pick(vec![Some(0), Some(1), Some(2)], vec![Some(0), Some(1), Some(2), Some(3), None]),
-        max_schedules: tier.pick(100_000, 2_000_000),
+        // unbounded only for two single-request threads (a waiter's fruitless polls are
+        // scheduling points too, so larger programs have 10+ points per thread)
+        bounds: if tier == Tier::Thorough {
+            let small = cfg.programs.len() == 2 && cfg.programs.iter().all(|p| p.len() == 1);
+            if small { vec![Some(0), Some(1), Some(2), Some(3), None] } else { vec![Some(0), Some(1), Some(2), Some(3)] }
+        } else {
+            vec![Some(0), Some(1), Some(2)]
+        },
+        max_schedules: tier.pick(100_000, 400_000),
         observe: &observe,
         extra: &extra,
         linearizable: false,
